@@ -404,3 +404,296 @@ def fnmatch_regex_syntax(h):
 
 
 TABLES = {"FnmatchTables": fnmatch_tables, "FnmatchConfig": fnmatch_config, "FnmatchRegexSyntax": fnmatch_regex_syntax}
+
+
+# --------------------------------------------------------------------------------------------------
+# Wave 3: decision tables of small functions, obtained by EVALUATING the Rust expression on every combination
+# of the flags it reads (so an if-chain, a `match` on a tuple, reordered arms, nested forms read the same), and
+# failing on anything the evaluator does not understand.
+
+def _toks(text):
+    return re.findall(r"=>|&&|\|\||==|[A-Za-z_][A-Za-z0-9_]*(?:(?:::|\.)[A-Za-z_][A-Za-z0-9_]*)*|[{}(),!;]|\S", text)
+
+
+def _until(h, toks, i, stops, what):
+    """index of the first token in `stops` at bracket depth 0, from i"""
+    depth = 0
+    while i < len(toks):
+        t = toks[i]
+        if depth == 0 and t in stops:
+            return i
+        if t in "({[":
+            depth += 1
+        elif t in ")}]":
+            if depth == 0:
+                return i
+            depth -= 1
+        i += 1
+    h.fail(f"shape not understood in {what}: unterminated expression")
+
+
+def _parse_block(h, toks, i, what):
+    if toks[i] != "{":
+        h.fail(f"shape not understood in {what}: `{{` expected, found {toks[i]!r}")
+    ast, i = _parse_expr(h, toks, i + 1, what)
+    while i < len(toks) and toks[i] == ";":
+        i += 1
+    if i >= len(toks) or toks[i] != "}":
+        h.fail(f"shape not understood in {what}: a block with more than one expression")
+    return ast, i + 1
+
+
+def _parse_expr(h, toks, i, what):
+    if toks[i] == "if":
+        j = _until(h, toks, i + 1, ["{"], what)
+        cond = toks[i + 1:j]
+        then, j = _parse_block(h, toks, j, what)
+        if j >= len(toks) or toks[j] != "else":
+            h.fail(f"shape not understood in {what}: `if` without `else`")
+        if toks[j + 1] == "if":
+            other, j = _parse_expr(h, toks, j + 1, what)
+        else:
+            other, j = _parse_block(h, toks, j + 1, what)
+        return ("if", cond, then, other), j
+    if toks[i] == "match":
+        j = _until(h, toks, i + 1, ["{"], what)
+        scrut = toks[i + 1:j]
+        j += 1
+        arms = []
+        while toks[j] != "}":
+            k = _until(h, toks, j, ["=>"], what)
+            pat = toks[j:k]
+            if toks[k + 1] == "{":
+                body, k = _parse_block(h, toks, k + 1, what)
+            else:
+                body, k = _parse_expr(h, toks, k + 1, what)
+            if toks[k] == ",":
+                k += 1
+            arms.append((pat, body))
+            j = k
+        return ("match", scrut, arms), j + 1
+    if toks[i] == "{":
+        return _parse_block(h, toks, i, what)
+    j = _until(h, toks, i, [",", ";"], what)
+    return ("leaf", toks[i:j]), j
+
+
+def _split_tuple(toks):
+    if toks and toks[0] == "(" and toks[-1] == ")":
+        toks = toks[1:-1]
+        parts, cur, depth = [], [], 0
+        for t in toks:
+            if t == "," and depth == 0:
+                parts.append(cur)
+                cur = []
+                continue
+            depth += {"(": 1, ")": -1}.get(t, 0)
+            cur.append(t)
+        if cur:
+            parts.append(cur)
+        return parts
+    return [toks]
+
+
+def _cond(h, toks, var, what):
+    out = []
+    for t in toks:
+        if t in ("(", ")"):
+            out.append(t)
+        elif t == "!":
+            out.append(" not ")
+        elif t == "&&":
+            out.append(" and ")
+        elif t == "||":
+            out.append(" or ")
+        elif t in ("true", "false"):
+            out.append(t.capitalize())
+        else:
+            v = var(t)
+            if v is None:
+                h.fail(f"shape not understood in {what}: {t!r} in a condition")
+            out.append(str(bool(v)))
+    try:
+        return bool(eval("".join(out), {"__builtins__": {}}))
+    except Exception:
+        h.fail(f"shape not understood in {what}: condition {' '.join(toks)!r}")
+
+
+def _eval(h, ast, var, classify, what):
+    if ast[0] == "leaf":
+        return classify(ast[1])
+    if ast[0] == "if":
+        return _eval(h, ast[2] if _cond(h, ast[1], var, what) else ast[3], var, classify, what)
+    vals = [_cond(h, e, var, what) for e in _split_tuple(ast[1])]
+    for pat, body in ast[2]:
+        ps = _split_tuple(pat)
+        if ps == [["_"]]:
+            return _eval(h, body, var, classify, what)
+        if len(ps) != len(vals) or any(len(p) != 1 or p[0] not in ("true", "false", "_") for p in ps):
+            h.fail(f"shape not understood in {what}: match pattern {' '.join(pat)!r}")
+        if all(p[0] == "_" or (p[0] == "true") == v for p, v in zip(ps, vals)):
+            return _eval(h, body, var, classify, what)
+    h.fail(f"shape not understood in {what}: no match arm applies")
+
+
+def _bool(b):
+    return "true" if b else "false"
+
+
+def fnmatch_decisions(h):
+    """attr_fnmatch.rs `to_pattern_chars` / `apply_escapes`, trim.rs `trim_value`"""
+    af = _no_tests(_strip_comments(h.read("yash-semantics/src/expansion/attr_fnmatch.rs")))
+
+    # to_pattern_chars: (is_quoted, is_quoting) -> None | Literal | Normal
+    body = h.item_body(af, r"fn\s+to_pattern_chars\b[^{]*", "fn to_pattern_chars in attr_fnmatch.rs")
+    m = re.search(r"filter_map\s*\(\s*\|\s*([a-z_][a-z0-9_]*)\s*\|", body)
+    if not m:
+        h.fail("shape not understood in to_pattern_chars: no `filter_map(|c| …)`")
+    name = m.group(1)
+    toks = _toks(body[m.end():])
+    ast, end = _parse_expr(h, toks, 0, "to_pattern_chars")
+    if toks[end:end + 1] != [")"] or [t for t in toks[end + 1:] if t not in (";",)]:
+        h.fail("shape not understood in to_pattern_chars: something follows the closure of filter_map")
+
+    def classify(leaf):
+        text = " ".join(leaf)
+        kinds = [k for k in ("None", "Literal", "Normal") if re.search(r"\b" + k + r"\b", text)]
+        if len(kinds) != 1 or (kinds[0] != "None" and f"{name}.value" not in leaf):
+            h.fail(f"shape not understood in to_pattern_chars: result {text!r}")
+        return kinds[0]
+
+    rows = []
+    for quoted in (False, True):
+        for quoting in (False, True):
+            var = lambda t: {f"{name}.is_quoted": quoted, f"{name}.is_quoting": quoting}.get(t)
+            rows.append((quoted, quoting, _eval(h, ast, var, classify, "to_pattern_chars")))
+
+    # apply_escapes: the loop, the condition on chars[i], what the body sets
+    body = h.item_body(af, r"fn\s+apply_escapes\b[^{]*", "fn apply_escapes in attr_fnmatch.rs")
+    flat = re.sub(r"\s+", "", body)
+    m = re.fullmatch(r"forjin1\.\.chars\.len\(\)\{leti=j-1;if(.*?)\{(.*)\}\}", flat)
+    if not m:
+        h.fail("shape not understood in apply_escapes: not `for j in 1..chars.len() { let i = j - 1; if … { … } }`")
+    cond = re.sub(r"chars\[i\]\.value=='\\\\'|'\\\\'==chars\[i\]\.value", " IS_BS ", m.group(1))
+    cond = cond.replace("chars[i].is_quoting", " IS_QUOTING ").replace("chars[i].is_quoted", " IS_QUOTED ")
+    ctoks = _toks(cond)
+    when = []
+    for bs in (False, True):
+        for quoting in (False, True):
+            for quoted in (False, True):
+                var = lambda t: {"IS_BS": bs, "IS_QUOTING": quoting, "IS_QUOTED": quoted}.get(t)
+                if _cond(h, ctoks, var, "apply_escapes"):
+                    when.append((bs, quoting, quoted))
+    effects = sorted(x for x in m.group(2).split(";") if x)
+    for e in effects:
+        if not re.fullmatch(r"chars\[[ij]\]\.is_(quoting|quoted)=true", e):
+            h.fail(f"shape not understood in apply_escapes: statement {e!r}")
+
+    # trim_value: which of find / rfind, by the flags of the pattern's configuration
+    trim = _no_tests(_strip_comments(h.read("yash-semantics/src/expansion/initial/param/trim.rs")))
+    body = h.item_body(trim, r"fn\s+trim_value\b[^{]*", "fn trim_value in trim.rs")
+    body = re.sub(r"\b[a-z_]+\s*\.\s*config\s*\(\s*\)", "config", body)
+    m = re.search(r"let\s+(?:mut\s+)?[a-z_][a-z0-9_]*\s*=\s*(?=(?:if|match)\b)", body)
+    if not m:
+        h.fail("shape not understood in trim_value: no `let x = if/match …` choosing between find and rfind")
+    toks = _toks(body[m.end():])
+    ast, _ = _parse_expr(h, toks, 0, "trim_value")
+
+    def which(leaf):
+        text = " ".join(leaf)
+        if re.search(r"\brfind\b", text):
+            return "rfind"
+        if re.search(r"\bfind\b", text):
+            return "find"
+        h.fail(f"shape not understood in trim_value: result {text!r}")
+
+    flags = ["anchor_begin", "anchor_end", "literal_period", "shortest_match"]
+    trows = []
+    for n in range(16):
+        on = [f for k, f in enumerate(flags) if n >> k & 1]
+        res = set()
+        for ci in (False, True):
+            def var(t, on=on, ci=ci):
+                f = t.split(".")[-1]
+                if f == "case_insensitive":
+                    return ci
+                return (f in on) if f in flags else None
+            res.add(_eval(h, ast, var, which, "trim_value"))
+        if len(res) != 1:
+            h.fail("trim_value: the choice between find and rfind depends on case_insensitive (outside the model)")
+        trows.append((sorted(on), res.pop()))
+
+    # lib.rs: the literal fast path of is_match / find / rfind (which `str` method per anchoring), and where the
+    # regex path starts searching under `literal_period`
+    lib = _no_tests(_strip_comments(h.read("yash-fnmatch/src/lib.rs")))
+    lit_rows, dot_rows = [], []
+    for fn in ("is_match", "find", "rfind"):
+        fb = h.item_body(lib, r"pub\s+fn\s+" + fn + r"\s*\([^)]*\)[^{]*", f"fn {fn} in lib.rs")
+        m = re.search(r"Body::Literal\s*\(\s*[a-z_]+\s*\)\s*=>\s*", fb)
+        if not m:
+            h.fail(f"shape not understood in lib.rs {fn}: no `Body::Literal(s) =>` arm")
+        toks = _toks(fb[m.end():])
+        ast, _ = _parse_expr(h, toks, 0, f"lib.rs {fn} literal arm")
+
+        def method(leaf, fn=fn):
+            text = "".join(leaf)
+            found = [x for x in ("contains", "starts_with", "ends_with", "rfind", "find")
+                     if re.search(r"\btext\." + x + r"\(", text)]
+            if re.search(r"\btext==|==text\b", text):
+                found.append("==")
+            if len(found) != 1:
+                h.fail(f"shape not understood in lib.rs {fn}: literal arm {text!r}")
+            return found[0]
+
+        for ab in (False, True):
+            for ae in (False, True):
+                var = lambda t: {"anchor_begin": ab, "anchor_end": ae}.get(t.split(".")[-1])
+                lit_rows.append((fn, ab, ae, _eval(h, ast, var, method, f"lib.rs {fn}")))
+        if fn == "rfind":
+            continue
+        flat = re.sub(r"\s+", " ", fb)
+        m = re.search(r"let reject_initial_dot = (.*?);\s*let at_index = if reject_initial_dot \{ 1 \} else \{ 0 \};", flat)
+        if not m:
+            h.fail(f"shape not understood in lib.rs {fn}: `let reject_initial_dot = …; let at_index = if … {{ 1 }} else {{ 0 }};`")
+        cond = m.group(1).replace("text.starts_with('.')", " TEXT_DOT ")
+        cond = re.sub(r"\*?\bstarts_with_literal_dot\b", " PAT_DOT ", cond)
+        ctoks = _toks(cond)
+        dwhen = []
+        for lp in (False, True):
+            for pd in (False, True):
+                for td in (False, True):
+                    def var(t, lp=lp, pd=pd, td=td):
+                        if t.split(".")[-1] == "literal_period":
+                            return lp
+                        return {"PAT_DOT": pd, "TEXT_DOT": td}.get(t)
+                    if _cond(h, ctoks, var, f"lib.rs {fn} reject_initial_dot"):
+                        dwhen.append((lp, pd, td))
+        dot_rows.append((fn, dwhen))
+
+    out = (
+        "/-- attr_fnmatch.rs `to_pattern_chars`, evaluated: (is_quoted, is_quoting) ↦ `None` / `Literal` / `Normal` -/\n"
+        "def patternCharTable : List ((Bool × Bool) × String) := ["
+        + ", ".join(f'(({_bool(a)}, {_bool(b)}), "{r}")' for a, b, r in rows) + "]\n\n"
+        "/-- attr_fnmatch.rs `apply_escapes`: the combinations (value is a backslash, is_quoting, is_quoted) of `chars[i]`\n"
+        "    for which the body runs (loop: `for j in 1..chars.len()`, `i = j - 1`) -/\n"
+        "def escapeWhen : List (Bool × Bool × Bool) := ["
+        + ", ".join(f"({_bool(a)}, {_bool(b)}, {_bool(c)})" for a, b, c in when) + "]\n\n"
+        "/-- … and what the body sets, sorted -/\n"
+        f"def escapeEffects : List String := {_lean_strs(effects)}\n\n"
+        "/-- trim.rs `trim_value`, evaluated on every combination of the modelled flags: flags on ↦ `find` / `rfind` -/\n"
+        "def trimValueSearch : List (List String × String) := [\n"
+        + ",\n".join(f'  ({_lean_strs(on)}, "{r}")' for on, r in trows) + "]\n\n"
+        "/-- lib.rs, the `Body::Literal` arm of is_match / find / rfind: (function, anchor_begin, anchor_end) ↦ the `str`\n"
+        "    operation applied to the text -/\n"
+        "def literalArms : List ((String × Bool × Bool) × String) := [\n"
+        + ",\n".join(f'  (("{fn}", {_bool(a)}, {_bool(b)}), "{r}")' for fn, a, b, r in lit_rows) + "]\n\n"
+        "/-- lib.rs, the regex arm of is_match / find: the combinations (literal_period, starts_with_literal_dot,\n"
+        "    text.starts_with('.')) under which the search starts at index 1 instead of 0 -/\n"
+        "def rejectInitialDotWhen : List (String × List (Bool × Bool × Bool)) := ["
+        + ", ".join(f'("{fn}", [' + ", ".join(f"({_bool(a)}, {_bool(b)}, {_bool(c)})" for a, b, c in w) + "])"
+                    for fn, w in dot_rows) + "]\n"
+    )
+    h.write("FnmatchDecisions", out)
+
+
+TABLES["FnmatchDecisions"] = fnmatch_decisions
